@@ -13,7 +13,8 @@ PROPS = {
     ),
     "C14": dict(
         coq=["props/C14.vo"], props=["props/C14.v"],
-        runs=[dict(core="resid", profile="debug"), dict(core="resid", profile="release")],
+        runs=[dict(core="resid", profile="debug"), dict(core="resid", profile="release"),
+              dict(core="driver", profile="debug", extra_models=[["driverprops", "impl2.txt"]])],
         nontrivial="distinct (operation, operands) lines",
         trusted_base=["usize is 64 bits", "AtomicUsize::fetch_add is a linearizable counter (modelled as a sequential counter)"],
         assumptions=["token round trip holds for raw ids below 2^(64-RESERVED_BITS): base values below 2^55 (stated in the theorem)"],
@@ -63,5 +64,21 @@ PROPS = {
         nontrivial="distinct label sequences with their recorded clock readings",
         trusted_base=["crossbeam-channel's select! returns within bounded time once an arm is ready (oracle; wake-up latency above 1 s is reported as a wedge)"],
         assumptions=["liveness is proved in safety form (no lost wake-up); bounded latency itself is measured, not proved"],
+    ),
+    "C03": dict(
+        coq=["props/C03.vo"], props=["props/C03.v"],
+        runs=[dict(core="driver", profile="debug", extra_models=[["driverprops", "impl2.txt"]])],
+        nontrivial="distinct scripts (controller calls, poll events with adapter answers and nested user calls)",
+        trusted_base=["std::sync::RwLock gives the registry atomic register / deregister / get (oracle)",
+                      "what real TCP / tungstenite answer as pending / read status is an oracle, sampled by the socket scenarios"],
+        assumptions=["fewer than 2^56 registrations per adapter", "one processor thread (NetworkProcessor is &mut); controller calls from other threads are modelled at the two points where they can change the outcome of a process() call"],
+    ),
+    "C04": dict(
+        coq=["props/C04.vo"], props=["props/C04.v"],
+        runs=[dict(core="driver", profile="debug", extra_models=[["driverprops", "impl2.txt"]]),
+              dict(core="driver_conc", profile="debug", model=False)],
+        nontrivial="distinct scripts",
+        trusted_base=["std::sync::RwLock (oracle)", "that dropping the last Arc closes the socket and the peer sees EOF is Rust ownership + kernel (measured in C18)"],
+        assumptions=["fewer than 2^56 registrations per adapter"],
     ),
 }
